@@ -140,6 +140,16 @@ def finish(rep, level, explanation, extra_cov=None, quiet=False):
         "notes": rep.notes,
         "exhaustive": True,
     }
+    # sibling cross-check: every obligation found in the sync device file has its counterpart in the async file and vice versa
+    def _sib(k):
+        for a_, b_ in (("adb_device_async.", "adb_device."), ("_AdbIOManagerAsync", "_AdbIOManager"), ("AdbDeviceTcpAsync", "AdbDeviceTcp"), ("AdbDeviceAsync", "AdbDevice"),
+                       ("[async]", "[sync]"), ("tcp_transport_async.TcpTransportAsync", "tcp_transport.TcpTransport")):
+            k = k.replace(a_, b_)
+        return k
+    sync_keys = set(o.key for o in rep.obligations if "adb_device." in o.key and "adb_device_async." not in o.key)
+    async_keys = set(_sib(o.key) for o in rep.obligations if "adb_device_async." in o.key)
+    if sync_keys or async_keys:
+        cov["sibling_crosscheck"] = {"paired": len(sync_keys & async_keys), "only_sync": sorted(sync_keys - async_keys)[:10], "only_async": sorted(async_keys - sync_keys)[:10]}
     cov.update(rep.extra)
     if extra_cov:
         cov.update(extra_cov)
